@@ -69,10 +69,18 @@ func init() {
 	l("strings.Index", func(fr *frame, a []value) value {
 		s, ok1 := a[0].(string)
 		sub, ok2 := a[1].(string)
-		if !ok1 || !ok2 {
-			panic(outOfReach{"strings.Index on symbolic text"})
+		if ok1 && ok2 {
+			checkLazy(s)
+			return strings.Index(s, sub)
 		}
-		return strings.Index(s, sub)
+		// symbolic content: first offset at which the needle matches (each offset is a fork)
+		sb, nb := strBytes(a[0]), strBytes(a[1])
+		for i := 0; i+len(nb) <= len(sb); i++ {
+			if I.x.branch(bytesEqTerm(sb[i:i+len(nb)], nb)) {
+				return i
+			}
+		}
+		return -1
 	})
 	l("strings.Compare", func(fr *frame, a []value) value { return intVal(bytesCmpTerm(strBytes(a[0]), strBytes(a[1]))) })
 	l("strconv.ParseInt", inParseInt)
@@ -103,6 +111,14 @@ func init() {
 	l("regexp.Compile", inRegexpCompile)
 	l("(*regexp.Regexp).Match", inRegexpMatch)
 	l("(*regexp.Regexp).MatchString", inRegexpMatch)
+	// third-party quantile sketch: opaque stub (its value is outside every claim)
+	l("github.com/beorn7/perks/quantile.NewTargeted", func(fr *frame, a []value) value {
+		I.stubs["quantile sketch: opaque stub returning 0"]++
+		var cell value = nativeObj{"quantile"}
+		return &cell
+	})
+	l("(*github.com/beorn7/perks/quantile.Stream).Insert", func(fr *frame, a []value) value { return nil })
+	l("(*github.com/beorn7/perks/quantile.Stream).Query", func(fr *frame, a []value) value { return float64(0) })
 	l("encoding/json.Unmarshal", inJSONUnmarshal)
 	l("encoding/json.Marshal", inJSONMarshal)
 }
@@ -530,7 +546,17 @@ func inStringsSplit(fr *frame, a []value) value {
 	}
 	sb, pb := strBytes(s), strBytes(sep)
 	if len(pb) == 0 {
-		panic(outOfReach{"strings.Split with empty separator on symbolic input"})
+		// explodes into UTF-8 sequences: single bytes for ASCII text
+		parts := make([]value, 0, len(sb))
+		for _, b := range sb {
+			if t, ok := b.(*Term); ok {
+				requireASCII(t, "strings.Split")
+			} else if b.(uint8) >= 0x80 {
+				panic(outOfReach{"strings.Split with empty separator on non-ASCII text"})
+			}
+			parts = append(parts, mkStr([]value{b}))
+		}
+		return parts
 	}
 	I.x.noteSym()
 	var parts []value
